@@ -70,6 +70,20 @@ theorem constKws_sound : ∀ (ks : Kws) (vs : List (String × V)), constKws ks =
     obtain ⟨ws, hws, rfl⟩ := h
     simp [evalRtKws, evalRt, constKws_sound rest ws hws]
 
+theorem constKwArgs_sound : ∀ (args : Args) (ks : List (String × V)), constKwArgs args = some ks →
+    evalRtArgsKw P m ρ args = .ok (kwPieces ks)
+  | .nil, ks, h => by simp [constKwArgs] at h; subst h; simp [evalRtArgsKw, kwPieces]
+  | .pos _ rest, ks, h => by
+    rw [constKwArgs] at h; rw [evalRtArgsKw]; exact constKwArgs_sound rest ks h
+  | .posSplat _ rest, ks, h => by
+    rw [constKwArgs] at h; rw [evalRtArgsKw]; exact constKwArgs_sound rest ks h
+  | .kw n e rest, ks, h => by
+    cases e <;> try (simp [constKwArgs] at h; done)
+    simp only [constKwArgs, Option.map_eq_some_iff] at h
+    obtain ⟨ws, hws, rfl⟩ := h
+    simp [evalRtArgsKw, evalRt, constKwArgs_sound rest ws hws, kwPieces]
+  | .kwSplat _ _, ks, h => by simp [constKwArgs] at h
+
 /-! ### folded values are defined -/
 
 theorem asConstChain_bool : ∀ (ops : Chain) (left v : V), asConstChain P left ops = some v →
@@ -130,7 +144,7 @@ theorem asConst_defined (hP : P.Lawful) : ∀ (e : Expr) (v : V), e.WF → asCon
     · obtain ⟨t, rfl⟩ := asConstChain_bool P ops _ v h; simp
     · simp at h
   | .getAttr .., v, _, h | .getItem .., v, _, h | .slice .., v, _, h | .ifExpr .., v, _, h
-  | .filter .., v, _, h | .test .., v, _, h | .call .., v, _, h => by simp [asConst] at h
+  | .filter .., v, _, h | .test .., v, _, h | .call .., v, _, h | .callx .., v, _, h => by simp [asConst] at h
 
 /-! ### one comparison step: folder (`eval_compare`) versus the VM -/
 
@@ -234,7 +248,7 @@ mutual
         exact asConstChain_sound' hP ops left v hw.2.2 hw.2.1 (asConst_defined hP e left hw.1 hl) h
       · simp at h
     | .getAttr .., v, _, h | .getItem .., v, _, h | .slice .., v, _, h | .ifExpr .., v, _, h
-  | .filter .., v, _, h | .test .., v, _, h | .call .., v, _, h => by simp [asConst] at h
+  | .filter .., v, _, h | .test .., v, _, h | .call .., v, _, h | .callx .., v, _, h => by simp [asConst] at h
   theorem asConstChain_sound' (hP : P.Lawful) : ∀ (ops : Chain) (left v : V), ops.WF → ops ≠ .nil →
       left ≠ .undef → asConstChain P left ops = some v → evalRtChain P m ρ left ops = .ok v
     | .nil, _, _, _, hne, _, _ => by simp at hne
@@ -361,6 +375,16 @@ mutual
       · split
         · next ks hk => rw [constKws_sound P m ρ kws ks (gate_some hk)]
         · rw [evalCKws_eq' hP kws hw.2]
+    | .callx kind recv name args, hw => by
+      simp only [Expr.WF] at hw
+      rw [evalC, evalRt, evalCList_eq' hP recv hw.1, evalCArgsPos_eq' hP args hw.2]
+      split
+      · rfl
+      · split
+        · rfl
+        · split
+          · next ks hk => rw [constKwArgs_sound P m ρ args ks (gate_some hk)]
+          · rw [evalCArgsKw_eq' hP args hw.2]
   theorem evalCOpt_eq' (hP : P.Lawful) : ∀ (o : OptExpr) (d : V), o.WF → evalCOpt P m ρ d o = evalRtOpt P m ρ d o
     | .none, _, _ => by simp [evalCOpt, evalRtOpt]
     | .some e, _, hw => by
@@ -396,6 +420,34 @@ mutual
     | .cons n e rest, hw => by
       simp only [Kws.WF] at hw
       rw [evalCKws, evalRtKws, evalC_eq_evalRt' hP e hw.1, evalCKws_eq' hP rest hw.2]
+  theorem evalCArgsPos_eq' (hP : P.Lawful) : ∀ (args : Args), args.WF → evalCArgsPos P m ρ args = evalRtArgsPos P m ρ args
+    | .nil, _ => by simp [evalCArgsPos, evalRtArgsPos]
+    | .pos e rest, hw => by
+      simp only [Args.WF] at hw
+      rw [evalCArgsPos, evalRtArgsPos, evalC_eq_evalRt' hP e hw.1, evalCArgsPos_eq' hP rest hw.2]
+    | .posSplat e rest, hw => by
+      simp only [Args.WF] at hw
+      rw [evalCArgsPos, evalRtArgsPos, evalC_eq_evalRt' hP e hw.1, evalCArgsPos_eq' hP rest hw.2]
+    | .kw _ e rest, hw => by
+      simp only [Args.WF] at hw
+      rw [evalCArgsPos, evalRtArgsPos, evalCArgsPos_eq' hP rest hw.2]
+    | .kwSplat e rest, hw => by
+      simp only [Args.WF] at hw
+      rw [evalCArgsPos, evalRtArgsPos, evalCArgsPos_eq' hP rest hw.2]
+  theorem evalCArgsKw_eq' (hP : P.Lawful) : ∀ (args : Args), args.WF → evalCArgsKw P m ρ args = evalRtArgsKw P m ρ args
+    | .nil, _ => by simp [evalCArgsKw, evalRtArgsKw]
+    | .pos e rest, hw => by
+      simp only [Args.WF] at hw
+      rw [evalCArgsKw, evalRtArgsKw, evalCArgsKw_eq' hP rest hw.2]
+    | .posSplat e rest, hw => by
+      simp only [Args.WF] at hw
+      rw [evalCArgsKw, evalRtArgsKw, evalCArgsKw_eq' hP rest hw.2]
+    | .kw _ e rest, hw => by
+      simp only [Args.WF] at hw
+      rw [evalCArgsKw, evalRtArgsKw, evalC_eq_evalRt' hP e hw.1, evalCArgsKw_eq' hP rest hw.2]
+    | .kwSplat e rest, hw => by
+      simp only [Args.WF] at hw
+      rw [evalCArgsKw, evalRtArgsKw, evalC_eq_evalRt' hP e hw.1, evalCArgsKw_eq' hP rest hw.2]
 end
 
 /-! ### hoisting literals into variables keeps the run-time value -/
@@ -506,6 +558,12 @@ mutual
       obtain ⟨pos', kws', rfl, hp, hk⟩ := h
       simp only [Expr.WF] at hw
       rw [evalRt, evalRt, hoistList_rt' hP pos pos' hw.1 hp, hoistKws_rt' hP kws kws' hw.2 hk]
+    | .callx k recv n args, e', hw, h => by
+      rw [Hoist] at h
+      obtain ⟨recv', args', rfl, hr, ha⟩ := h
+      simp only [Expr.WF] at hw
+      rw [evalRt, evalRt, hoistList_rt' hP recv recv' hw.1 hr, hoistArgsPos_rt' hP args args' hw.2 ha,
+        hoistArgsKw_rt' hP args args' hw.2 ha]
   theorem hoistOpt_rt' (hP : P.Lawful) : ∀ (o o' : OptExpr) (d : V), o.WF → HoistOpt P ρ o o' →
       evalRtOpt P m ρ d o' = evalRtOpt P m ρ d o
     | .none, o', _, _, h => by rw [HoistOpt] at h; subst h; rfl
@@ -561,6 +619,52 @@ mutual
       obtain ⟨e', rest', rfl, he, hr⟩ := h
       simp only [Kws.WF] at hw
       rw [evalRtKws, evalRtKws, hoist_rt' hP e e' hw.1 he, hoistKws_rt' hP rest rest' hw.2 hr]
+  theorem hoistArgsPos_rt' (hP : P.Lawful) : ∀ (a a' : Args), a.WF → HoistArgs P ρ a a' →
+      evalRtArgsPos P m ρ a' = evalRtArgsPos P m ρ a
+    | .nil, a', _, h => by rw [HoistArgs] at h; subst h; rfl
+    | .pos e rest, a', hw, h => by
+      rw [HoistArgs] at h
+      obtain ⟨e', rest', rfl, he, hr⟩ := h
+      simp only [Args.WF] at hw
+      rw [evalRtArgsPos, evalRtArgsPos, hoist_rt' hP e e' hw.1 he, hoistArgsPos_rt' hP rest rest' hw.2 hr]
+    | .posSplat e rest, a', hw, h => by
+      rw [HoistArgs] at h
+      obtain ⟨e', rest', rfl, he, hr⟩ := h
+      simp only [Args.WF] at hw
+      rw [evalRtArgsPos, evalRtArgsPos, hoist_rt' hP e e' hw.1 he, hoistArgsPos_rt' hP rest rest' hw.2 hr]
+    | .kw n e rest, a', hw, h => by
+      rw [HoistArgs] at h
+      obtain ⟨e', rest', rfl, _, hr⟩ := h
+      simp only [Args.WF] at hw
+      rw [evalRtArgsPos, evalRtArgsPos, hoistArgsPos_rt' hP rest rest' hw.2 hr]
+    | .kwSplat e rest, a', hw, h => by
+      rw [HoistArgs] at h
+      obtain ⟨e', rest', rfl, _, hr⟩ := h
+      simp only [Args.WF] at hw
+      rw [evalRtArgsPos, evalRtArgsPos, hoistArgsPos_rt' hP rest rest' hw.2 hr]
+  theorem hoistArgsKw_rt' (hP : P.Lawful) : ∀ (a a' : Args), a.WF → HoistArgs P ρ a a' →
+      evalRtArgsKw P m ρ a' = evalRtArgsKw P m ρ a
+    | .nil, a', _, h => by rw [HoistArgs] at h; subst h; rfl
+    | .pos e rest, a', hw, h => by
+      rw [HoistArgs] at h
+      obtain ⟨e', rest', rfl, _, hr⟩ := h
+      simp only [Args.WF] at hw
+      rw [evalRtArgsKw, evalRtArgsKw, hoistArgsKw_rt' hP rest rest' hw.2 hr]
+    | .posSplat e rest, a', hw, h => by
+      rw [HoistArgs] at h
+      obtain ⟨e', rest', rfl, _, hr⟩ := h
+      simp only [Args.WF] at hw
+      rw [evalRtArgsKw, evalRtArgsKw, hoistArgsKw_rt' hP rest rest' hw.2 hr]
+    | .kw n e rest, a', hw, h => by
+      rw [HoistArgs] at h
+      obtain ⟨e', rest', rfl, he, hr⟩ := h
+      simp only [Args.WF] at hw
+      rw [evalRtArgsKw, evalRtArgsKw, hoist_rt' hP e e' hw.1 he, hoistArgsKw_rt' hP rest rest' hw.2 hr]
+    | .kwSplat e rest, a', hw, h => by
+      rw [HoistArgs] at h
+      obtain ⟨e', rest', rfl, he, hr⟩ := h
+      simp only [Args.WF] at hw
+      rw [evalRtArgsKw, evalRtArgsKw, hoist_rt' hP e e' hw.1 he, hoistArgsKw_rt' hP rest rest' hw.2 hr]
 end
 
 mutual
@@ -649,6 +753,11 @@ mutual
       obtain ⟨pos', kws', rfl, hp, hk⟩ := h
       simp only [Expr.WF] at hw ⊢
       exact ⟨hoistList_WF' pos pos' hw.1 hp, hoistKws_WF' kws kws' hw.2 hk⟩
+    | .callx k recv n args, e', hw, h => by
+      rw [Hoist] at h
+      obtain ⟨recv', args', rfl, hr, ha⟩ := h
+      simp only [Expr.WF] at hw ⊢
+      exact ⟨hoistList_WF' recv recv' hw.1 hr, hoistArgs_WF' args args' hw.2 ha⟩
   theorem hoistOpt_WF' : ∀ (o o' : OptExpr), o.WF → HoistOpt P ρ o o' → o'.WF
     | .none, o', _, h => by rw [HoistOpt] at h; subst h; simp [OptExpr.WF]
     | .some e, o', hw, h => by
@@ -684,6 +793,28 @@ mutual
       obtain ⟨e', rest', rfl, he, hr⟩ := h
       simp only [Kws.WF] at hw ⊢
       exact ⟨hoist_WF' e e' hw.1 he, hoistKws_WF' rest rest' hw.2 hr⟩
+  theorem hoistArgs_WF' : ∀ (a a' : Args), a.WF → HoistArgs P ρ a a' → a'.WF
+    | .nil, a', _, h => by rw [HoistArgs] at h; subst h; simp [Args.WF]
+    | .pos e rest, a', hw, h => by
+      rw [HoistArgs] at h
+      obtain ⟨e', rest', rfl, he, hr⟩ := h
+      simp only [Args.WF] at hw ⊢
+      exact ⟨hoist_WF' e e' hw.1 he, hoistArgs_WF' rest rest' hw.2 hr⟩
+    | .posSplat e rest, a', hw, h => by
+      rw [HoistArgs] at h
+      obtain ⟨e', rest', rfl, he, hr⟩ := h
+      simp only [Args.WF] at hw ⊢
+      exact ⟨hoist_WF' e e' hw.1 he, hoistArgs_WF' rest rest' hw.2 hr⟩
+    | .kw n e rest, a', hw, h => by
+      rw [HoistArgs] at h
+      obtain ⟨e', rest', rfl, he, hr⟩ := h
+      simp only [Args.WF] at hw ⊢
+      exact ⟨hoist_WF' e e' hw.1 he, hoistArgs_WF' rest rest' hw.2 hr⟩
+    | .kwSplat e rest, a', hw, h => by
+      rw [HoistArgs] at h
+      obtain ⟨e', rest', rfl, he, hr⟩ := h
+      simp only [Args.WF] at hw ⊢
+      exact ⟨hoist_WF' e e' hw.1 he, hoistArgs_WF' rest rest' hw.2 hr⟩
 end
 
 /-! ### the call of a `{% call %}` block keeps its caller -/
@@ -700,6 +831,22 @@ theorem evalCallBlock_hoist (hP : P.Lawful) (name : String) (pos pos' : Exprs) (
     evalCallBlockRt P m ρ name pos' kws' caller = evalCallBlockRt P m ρ name pos kws caller := by
   unfold evalCallBlockRt
   rw [hoistList_rt' m ρ hP pos pos' hp h1, hoistKws_rt' m ρ hP kws kws' hk h2]
+
+/-- the general call form under a `{% call %}` block -/
+theorem evalCallBlockX_eq (hP : P.Lawful) (hs : P.codegenSpecial "static-kwargs-off-for-caller" = true)
+    (kind : CallKind) (recv : Exprs) (name : String) (args : Args) (caller : V) (hr : recv.WF) (ha : args.WF) :
+    evalCallBlockXC P m ρ kind recv name args caller = evalCallBlockXRt P m ρ kind recv name args caller := by
+  unfold evalCallBlockXC evalCallBlockXRt
+  rw [evalCList_eq' m ρ hP recv hr, evalCArgsPos_eq' m ρ hP args ha, evalCArgsKw_eq' m ρ hP args ha]
+  simp [hs, gate]
+
+theorem evalCallBlockX_hoist (hP : P.Lawful) (kind : CallKind) (recv recv' : Exprs) (name : String)
+    (args args' : Args) (caller : V) (hr : recv.WF) (ha : args.WF)
+    (h1 : HoistList P ρ recv recv') (h2 : HoistArgs P ρ args args') :
+    evalCallBlockXRt P m ρ kind recv' name args' caller = evalCallBlockXRt P m ρ kind recv name args caller := by
+  unfold evalCallBlockXRt
+  rw [hoistList_rt' m ρ hP recv recv' hr h1, hoistArgsPos_rt' m ρ hP args args' ha h2,
+    hoistArgsKw_rt' m ρ hP args args' ha h2]
 
 end
 end MJ.Fold
